@@ -131,7 +131,56 @@ for _pid, _mods in (("C06", "C06"), ("C07", "C07"), ("C19", "C19")):
         }[_pid] + "; streams inject (library entry points) and inject-cli (built CLI, -f/-d/-p mixed over 1-3 runs) compare every file's bytes after every run with the model and with an independent observer (reflect.StructTag lookups, bytes outside literals, run n+1 = run n)",
     }
 
+CONC_ASSUME = [
+    "sync.RWMutex gives mutual exclusion and happens-before; sync.Pool hands an object to one goroutine at a time; the Go memory model — runtime contracts no executable model exhibits (partial)",
+    "SetCustomerValidFn / SetStructTypeCache / SetDelCallBackFn run before the goroutines start, as the properties state",
+]
+CHECKS["C08"] = {
+    "modules": ["PGV.Props.C08", "PGV.Props.Facts"], "audits": ["PGV/Audit/C08.lean"],
+    "streams": ["cache-default", "cache-lru0", "cache-lru1", "cache-lru2", "cache-lru3", "cache-lru8", "cache-syncmap", "cache-miss"], "thorough_seeds": 2,
+    "assumptions": WALK_ASSUME + ["a CacheEr is sound: Load(k) returns only a value stored under an equal key (proved for the bounded LRU of every capacity, the unbounded map and the always-miss cache); cached values are immutable (the per-call override acts on a copy: checked by correspondence over histories)"],
+    "explanation": "C08_history: for every sound cache, every history of calls and every call (any number of type lookups) each call returns its cache-free result, and the caches of the property are sound (lruSound for every capacity incl. 0, mapSound, missSound); C08_cache_independent; streams cache-*: one process per cache configuration (SetStructTypeCache), sequential histories over 700 struct types x 3 tag names x overrides, every result compared with the model's fresh-state result",
+}
+CHECKS["C12"] = {
+    "modules": ["PGV.Props.C12"], "audits": ["PGV/Audit/C12.lean"],
+    "streams": ["history", "walk-rm"], "thorough_seeds": 2,
+    "assumptions": WALK_ASSUME + ["pools are modelled adversarially: a call may receive any object a previous call returned"],
+    "explanation": "C12_history_independent: under every pool schedule every call of every history returns its fresh-process result (pool invariant: recycled validators have no rule map, recycled builders are empty; every call re-establishes it); together with C08 for the cache. Stream history: sequential heterogeneous calls, each compared with the model's fresh-state result; error strings and ValidNamesSplit tokens handed out earlier are re-read at the end",
+}
+CHECKS["C10"] = {
+    "modules": ["PGV.Props.C10"], "audits": ["PGV/Audit/C10.lean"],
+    "streams": ["lru-conc"], "race_streams": ["lru-conc"], "race_n": {"quick": 600, "thorough": 6000}, "thorough_seeds": 2,
+    "assumptions": CONC_ASSUME + ["the lock facts are read off the source text (first two statements of each method, assignments / list mutators / delete on receiver state)"],
+    "explanation": "C10_linearizable: in the interleaving semantics where each operation is atomic between invocation and response (one mutex around the body) every reachable configuration, for any number of threads, has a linearization that is a legal sequential LRU run, contains every returned operation and respects real time; T2_lock_discipline (re-extracted from cache.go each run) is the premise; stream lru-conc (also under -race): small histories are searched for a linearization whose witness is replayed in Lean, large ones checked at quiescence",
+}
+CHECKS["C11"] = {
+    "modules": ["PGV.Props.C11"], "audits": ["PGV/Audit/C11.lean"],
+    "streams": ["conc", "conc-lru2"], "race_streams": ["conc", "conc-lru2"], "race_n": {"quick": 4000, "thorough": 60000}, "thorough_seeds": 2,
+    "assumptions": WALK_ASSUME + CONC_ASSUME,
+    "explanation": "C11: cache lookups of any interleaving return analyse k (C08 over every sequence), every pool schedule gives solo results (C12), no other package state is assigned (T2_globals), the cache is operated under the lock discipline (T2_lock_discipline); streams conc / conc-lru2: 32 goroutines issuing Struct/Var/Map/Url calls at once, every result compared with the model's solo result, also under the race detector",
+}
+
 MANIFEST_TEXT = {
+    "C08": {
+        "technique": "Lean 4 theorems (coherence invariant by induction over call histories, for every sound cache; soundness of LRU / map / always-miss) + differential correspondence, one process per cache configuration",
+        "text": "Theorems: C08_call_transparent / C08_history — for EVERY sound cache, every call (a program with any number of struct-type lookups) and every history of calls from process start, each call returns exactly its cache-free result, and everything a call stores is (key, analyse key); C08_cache_independent; lruSound for every capacity (incl. 0), mapSound, missSound. The key is (type, tag name). Tie: streams cache-default / lru0 / lru1 / lru2 / lru3 / lru8 / syncmap / miss, each in its own process with SetStructTypeCache, sequential histories over a pool of 700 struct types (more than any capacity) x 3 tag names x overrides; every result is compared with the model's fresh-state result.",
+        "note": "Trusted: Lean kernel; that getCacheStructType is the only channel between cache and walker, and that cached field info is copied before a per-call override, are read off the code (the model has immutable values) and exercised by the histories; C09 ties the list LRU to the implementation.",
+    },
+    "C12": {
+        "technique": "Lean 4 theorems (pool-adversarial frame theorem, pool invariant by induction over histories) + differential correspondence over sequential histories with re-reading of earlier results",
+        "text": "Theorems: C12_pool_adversarial (a clean recycled validator and an empty recycled builder give the result of fresh ones), C12_returns_clean (every call puts clean objects back), C12_history_independent (for every history and every adversarial pool schedule each call returns its fresh-process result), with C08 for the type cache. Tie: stream history (sequential Struct/Var/Map/Url calls over shared types, tags, overrides, per-call functions; every result vs the model's fresh-state result; error strings and ValidNamesSplit tokens retained and re-read after all later calls).",
+        "note": "Trusted: Lean kernel; the pool protocol (NewVStruct re-initialises tag, builder and function table but not the rule map; free clears it) is transcribed from the code; input immutability is by construction of the model (it has no write) and observed by the harness.",
+    },
+    "C10": {
+        "technique": "Lean 4 theorem (coarse-lock linearizability invariant over every reachable configuration, any number of threads) + regenerated lock facts (T2, decide) + race-detector stress and linearizability search with witness replay in Lean (support)",
+        "text": "Theorem C10_linearizable (+ state_is_sequential, returned_linearized, real_time): if every operation runs atomically between invocation and response, every reachable configuration of the interleaving semantics over the sequential bounded LRU is linearizable — for any number of threads and every schedule. Premise: T2_lock_discipline, re-extracted from cache.go on every run (writers hold the exclusive lock for the whole body, readers at least the shared lock, lock-free helpers only under the exclusive lock). Partial: mutex semantics and data-race freedom are runtime contracts; stream lru-conc runs 2-16 goroutines, searches small histories for a linearization (witness replayed in the Lean model/spec), checks large ones at quiescence, and is run again under -race.",
+        "note": "Trusted: Lean kernel; sync.RWMutex; the lock-fact extractor (go/ast, ~120 lines); C09 for sequential behaviour.",
+    },
+    "C11": {
+        "technique": "Lean 4 theorems (C08 over arbitrary interleavings of lookups, C12 over arbitrary pool schedules) + regenerated global-state and lock facts (T2) + concurrent differential correspondence under the race detector (support)",
+        "text": "Theorems: C11_cache_any_interleaving (whatever order the goroutines' lookups take, each returns analyse k), C11_call_solo_result, C11_pools_any_schedule; facts C11_globals (only the two registration functions assign package state) and C11_cache_locked. Partial: atomicity of cache and pool operations and data-race freedom are runtime contracts; streams conc and conc-lru2 run 32 goroutines of Struct (tags, overrides, per-call functions), Var, Map, Url calls over shared and private types, compare every result with the model's solo result, and are run again under -race.",
+        "note": "Trusted: Lean kernel; sync.Pool / sync.RWMutex / sync.Once; the Go memory model.",
+    },
     "C06": {
         "technique": "Lean 4 theorems (merge laws, override = merge, reverse-order splicing = in-place rewriting by induction over the chunks of a file) + differential correspondence incl. the built CLI + independent reflect.StructTag oracle",
         "text": "Theorems for every file, of any size, with any number and placement of annotated fields: C06_file — WriteFile (areas applied from the end backwards, every slice expression with Go's bounds checks) returns the file in which exactly the annotated tag literals carry the merged tags and every other byte is where it was (C06_outside_unchanged); merge laws for all item lists: C06_merge_lookup_new, C06_merge_keeps_old (position, and value when unmentioned), C06_merge_appends, C06_merge_nodup; C06_override_is_merge (the code's loop = the spec under distinct keys). Tie: streams inject / inject-cli on generated Go sources, 1-3 runs, library and CLI (-f/-d/-p).",
